@@ -9,7 +9,7 @@
         <event>  ::= <fn>(<val>,<val>…)
         <val>    ::= <int> | true | false | u | s<hex> | none | some:<int> | [<int>;…]
                    | acc:<int> | rej:<int> | rec[..] | enm<k>[..]
-    c08 mir <hex sexp>   →  ok <tmp_idx> | <block 0> | <block 1> …   or   outside
+    c08 mir <hex sexp>   →  <fn 0> || <fn 1> || … (main last), each  ok <tmp_idx> | <block 0> | <block 1> …   or   outside
         the structured lowering model (`RotoV.LowerS.lowerBlock` of main's body, then `return`)
         laid out as a CFG: instructions `a <var> = <value>`, `r <var>`, `j <block>`,
         `s <var> <k> <block> <default block>` separated by `;`. `outside`: main uses a
@@ -283,6 +283,7 @@ def showValue : Value → String
   | .not x => "not " ++ showVar x
   | .neg x => "neg " ++ showVar x
   | .callRt f args => s!"callrt {hostName f} " ++ " ".intercalate (args.map showVar)
+  | .call f args => s!"call f{f} " ++ " ".intercalate (args.map showVar)
   | .disc x => "disc " ++ showVar x
   | .cloneProj x i tag => s!"clone {showVar x}.{tagName tag}#{i}"
   | .cloneField x i => s!"clone {showVar x}.{fieldName i}"
@@ -419,11 +420,9 @@ def handle (args : List String) : String :=
     | none, _, _ => "bad-program"
     | _, _, _ => "bad-op"
   | ["mir", hexs] =>
+    -- one answer per function, in definition order (the last one is main)
     match parseProg hexs with
-    | some fns =>
-      match fns.getLast? with
-      | some fd => showMir fd
-      | none => "bad-program"
+    | some fns => " || ".intercalate (fns.map showMir)
     | none => "bad-program"
   | _ => "bad-op"
 
